@@ -45,8 +45,15 @@ class Module:
                 self.imports[a.asname or a.name.split(".")[0]] = (
                     a.name if a.asname else a.name.split(".")[0], None)
         elif isinstance(node, ast.ImportFrom):
+            modname = node.module or ""
+            if node.level:
+                pkg = self.name.split(".")
+                if not self.path.endswith("__init__.py"):
+                    pkg = pkg[:-1]
+                pkg = pkg[:len(pkg) - (node.level - 1)]
+                modname = ".".join(pkg + ([node.module] if node.module else []))
             for a in node.names:
-                self.imports[a.asname or a.name] = (node.module or "", a.name)
+                self.imports[a.asname or a.name] = (modname, a.name)
         elif isinstance(node, ast.Assign):
             if len(node.targets) == 1 and isinstance(node.targets[0], ast.Name):
                 self.assigns[node.targets[0].id] = node.value
